@@ -152,7 +152,87 @@ def _run(args):
     return (rel, qual, desc, "SURVIVED")
 
 
+def _run_union(args):
+    pids, rel, qual, desc, newsrc, bases = args
+    try:
+        compile(newsrc, rel, "exec")
+    except SyntaxError:
+        return (rel, qual, desc, "invalid")
+    repo = Repo(None, {rel: newsrc})
+    undecided = None
+    for pid in pids:
+        pm = props.load(pid)
+        try:
+            ctx = run_rules(repo, pm, "thorough")
+        except AnalysisError as e:
+            undecided = "undecided(%s): %s" % (pid, str(e).splitlines()[0][:60])
+            continue
+        except Exception as e:
+            undecided = "crash(%s): %s" % (pid, e)
+            continue
+        new = [i for i in ctx.violations() if (i.rule, i.anchor, i.key) not in bases[pid]]
+        if new:
+            return (rel, qual, desc, "caught %s [%s]" % (new[0].rule, new[0].key[:50]))
+    return (rel, qual, desc, undecided or "SURVIVED")
+
+
+def main_all():
+    """every function consulted by any property, every mutant run against all properties that consult the function"""
+    repo = Repo()
+    seen_by = {}
+    bases = {}
+    for pid in props.ALL:
+        pm = props.load(pid)
+        ctx = run_rules(repo, pm, "thorough")
+        bases[pid] = {(i.rule, i.anchor, i.key) for i in ctx.violations()}
+        for fq in ctx.functions_seen:
+            rel, _, qual = fq.partition(":")
+            if not rel.endswith(".py") or not qual:
+                continue
+            m = repo.mod(rel)
+            outer = None
+            parts = qual.split(".")
+            for i in range(1, len(parts) + 1):
+                q = ".".join(parts[:i])
+                if q in m.functions and isinstance(m.functions[q], (ast.FunctionDef, ast.AsyncFunctionDef)):
+                    outer = q
+                    break
+            if outer:
+                seen_by.setdefault((rel, outer), set()).add(pid)
+    tasks = []
+    for (rel, outer), pids in sorted(seen_by.items()):
+        m = repo.mod(rel)
+        tree = ast.parse(m.source)
+        fn = None
+        for n in ast.walk(tree):
+            if isinstance(n, (ast.FunctionDef, ast.AsyncFunctionDef)) and n.lineno == m.functions[outer].lineno and n.name == m.functions[outer].name:
+                fn = n
+        if fn is None:
+            continue
+        for desc, f2 in gen_mutants(fn):
+            tasks.append((sorted(pids), rel, outer, desc, replace_fn_source(m.source, fn, f2), bases))
+    print("ALL: %d mutants over %d functions" % (len(tasks), len(seen_by)))
+    with ProcessPoolExecutor(max_workers=16) as ex:
+        results = list(ex.map(_run_union, tasks, chunksize=4))
+    tally = {}
+    per_fn = {}
+    for rel, qual, desc, res in results:
+        k = res.split(" ")[0].split("(")[0].rstrip(":")
+        tally[k] = tally.get(k, 0) + 1
+        d = per_fn.setdefault((rel, qual), {})
+        d[k] = d.get(k, 0) + 1
+    print("tally:", tally)
+    for (rel, qual), d in sorted(per_fn.items(), key=lambda kv: -kv[1].get("SURVIVED", 0)):
+        print("%4d survived / %4d  %s:%s  (seen by %s)" % (d.get("SURVIVED", 0), sum(d.values()), rel, qual, ",".join(sorted(seen_by[(rel, qual)]))))
+    if "--list" in sys.argv:
+        for rel, qual, desc, res in results:
+            if res == "SURVIVED":
+                print("SURVIVED %s:%s  %s" % (rel, qual, desc))
+
+
 def main():
+    if sys.argv[1].upper() == "ALL":
+        return main_all()
     pid = sys.argv[1].upper()
     jobs = 16
     only = None
